@@ -216,7 +216,6 @@ package openapiv3
 
 // type and format table of scalar kinds; bytes formats and the (only) hex pattern
 //@ func (g *Generator) convertScalarField(field *protogen.Field) (r *base.SchemaProxy)
-//@   requires field != nil && g != nil
 //@   modifies *
 //@   at-call CreateSchemaProxy requires type_table: spec.scalarKindField(field) && spec.validKind(field.Desc.Kind()) ==> len(arg0.Type) == 1 && arg0.Type[0] == spec.oasType(field)
 //@   at-call CreateSchemaProxy requires format_table: spec.scalarKindField(field) && spec.validKind(field.Desc.Kind()) && !spec.hasRules(field) ==> arg0.Format == spec.oasFormat(field)
@@ -227,7 +226,6 @@ package openapiv3
 
 // Timestamp fields: integer for the UNIX formats, string (date / date-time) otherwise
 //@ func (g *Generator) convertTimestampField(field *protogen.Field, schema *base.Schema) (r *base.SchemaProxy)
-//@   requires field != nil && schema != nil
 //@   modifies *
 //@   at-call CreateSchemaProxy requires same_schema: arg0 == schema
 //@   at-call CreateSchemaProxy requires type_table: len(schema.Type) == 1 && schema.Type[0] == ite(spec.timestampClass(field) == "number", "integer", "string")
@@ -235,7 +233,6 @@ package openapiv3
 
 // enum fields: integer enum of the numbers for NUMBER encoding, otherwise string enum of the custom value or the proto name of every value
 //@ func (g *Generator) convertEnumField(field *protogen.Field) (r *base.SchemaProxy)
-//@   requires field != nil
 //@   modifies *
 //@   at-call CreateSchemaProxy requires type_table: len(arg0.Type) == 1 && arg0.Type[0] == ite(field.Enum != nil && spec.enumEncoding(field) == sebufhttp.EnumEncoding_ENUM_ENCODING_NUMBER, "integer", "string")
 //@   at-call CreateSchemaProxy requires all_values: field.Enum != nil ==> len(arg0.Enum) == len(field.Enum.Values)
@@ -243,3 +240,21 @@ package openapiv3
 //@   loop 1 invariant len(schema.Enum) == _i1
 //@   loop 2 invariant len(schema.Enum) == _i2
 //@   loop 2 invariant forall k int :: 0 <= k && k < _i2 ==> schema.Enum[k] != nil && schema.Enum[k].Value == ite(spec.enumValueAnno(field.Enum.Values[k]) != "", spec.enumValueAnno(field.Enum.Values[k]), string(field.Enum.Values[k].Desc.Name()))
+
+// the required list of an object schema names exactly the fields carrying the buf.validate `required` rule (C19)
+//@ func (g *Generator) buildObjectSchema(message *protogen.Message) (r *base.SchemaProxy)
+//@   modifies *
+//@   at-call CreateSchemaProxy requires required_complete: forall k int :: 0 <= k && k < len(message.Fields) && checkIfFieldRequired(message.Fields[k]) ==> (exists j int :: 0 <= j && j < len(arg0.Required) && arg0.Required[j] == message.Fields[k].Desc.JSONName())
+//@   at-call CreateSchemaProxy requires required_sound: forall j int :: 0 <= j && j < len(arg0.Required) ==> (exists k int :: 0 <= k && k < len(message.Fields) && checkIfFieldRequired(message.Fields[k]) && arg0.Required[j] == message.Fields[k].Desc.JSONName())
+//@   loop 1 invariant forall k int :: 0 <= k && k < _i1 && checkIfFieldRequired(message.Fields[k]) ==> (exists j int :: 0 <= j && j < len(required) && required[j] == message.Fields[k].Desc.JSONName())
+//@   loop 1 invariant forall j int :: 0 <= j && j < len(required) ==> (exists k int :: 0 <= k && k < _i1 && checkIfFieldRequired(message.Fields[k]) && required[j] == message.Fields[k].Desc.JSONName())
+
+//@ func (g *Generator) buildNestedOneofSchema(message *protogen.Message, discriminatedOneofs []*annotations.OneofDiscriminatorInfo, oneofFields map[string]bool) (r *base.SchemaProxy)
+//@   modifies *
+//@   at-call CreateSchemaProxy requires required_complete: forall k int :: 0 <= k && k < len(message.Fields) && !(inDom(oneofFields, string(message.Fields[k].Desc.Name())) && oneofFields[string(message.Fields[k].Desc.Name())]) && checkIfFieldRequired(message.Fields[k]) ==> (exists j int :: 0 <= j && j < len(arg0.Required) && arg0.Required[j] == message.Fields[k].Desc.JSONName())
+//@   loop 1 invariant forall k int :: 0 <= k && k < _i1 && !(inDom(oneofFields, string(message.Fields[k].Desc.Name())) && oneofFields[string(message.Fields[k].Desc.Name())]) && checkIfFieldRequired(message.Fields[k]) ==> (exists j int :: 0 <= j && j < len(required) && required[j] == message.Fields[k].Desc.JSONName())
+
+//@ func (g *Generator) buildFlattenedObjectSchema(message *protogen.Message) (r *base.SchemaProxy)
+//@   modifies *
+//@   at-call CreateSchemaProxy requires required_complete: arg0.Properties == baseProps ==> (forall k int :: 0 <= k && k < len(message.Fields) && !spec.flattenAnno(message.Fields[k]) && checkIfFieldRequired(message.Fields[k]) ==> (exists j int :: 0 <= j && j < len(arg0.Required) && arg0.Required[j] == message.Fields[k].Desc.JSONName()))
+//@   loop 1 invariant forall k int :: 0 <= k && k < _i1 && !spec.flattenAnno(message.Fields[k]) && checkIfFieldRequired(message.Fields[k]) ==> (exists j int :: 0 <= j && j < len(baseRequired) && baseRequired[j] == message.Fields[k].Desc.JSONName())
